@@ -233,7 +233,7 @@ Fixpoint run_dguards (gs : list (dbexp * guard_action)) (en : denv) (d : dhg) : 
   | (c, act) :: r =>
       match dbeval c en d with
       | inr e => Some (d, Raised e, O)
-      | inl true => Some (match act with GRaise e => (d, Raised e, O) | GWarnReturn => (d, Ok, 1%nat) end)
+      | inl true => Some (match act with GRaise e => (d, Raised e, O) | GWarnReturn => (d, Ok, 1%nat) | GReturn => (d, Ok, O) end)
       | inl false => run_dguards r en d
       end
   end.
